@@ -267,6 +267,9 @@ def c03(acc):
     _, p2 = mc_reader(acc, 2, "all", ["Inv_Total"], name="MC_Reader-c03all")
     replay_reader(acc, p2, "chunks", extra=["--max-all-cuts", 6, "--stride", 4])
     replay_reader(acc, p2, "slice")      # incl. the namespace-aware reader (own bookkeeping per Start/End, e.g. on unmatched end tags)
+    # skip calls issued at any later point (after text, children, end tags): spans stay ordered and within the input, no panic
+    _, pk = mc_ops(acc, 3, 0, 2, "default", [], ["Inv_SkipRef"], "MC_Ops-c03skipany", skipany=True)
+    replay_reader(acc, pk, "slice", extra=["--stride", 2 if q else 1])
     # positions stay within the input when raw bytes are taken through Reader::stream() (io::Read, BufRead and the tokio traits)
     _, ps = mc_ops(acc, 2 if q else 3, 0, 0, "default", [], ["Inv_StreamTiling"], "MC_Ops-c03stream", streams=2)
     replay_reader(acc, ps, "chunks", extra=["--max-all-cuts", 0, "--stride", 3 if q else 1])
@@ -330,13 +333,14 @@ def c16(acc):
     return acc.finish()
 
 
-def mc_ops(acc, L, flips, skips, init, keys, invs, name, emit=True, timeout=2500, streams=0):
+def mc_ops(acc, L, flips, skips, init, keys, invs, name, emit=True, timeout=2500, streams=0, skipany=False):
     cfg = f"""SPECIFICATION Spec
 CONSTANTS
   L = {L}
   MaxFlips = {flips}
   MaxSkips = {skips}
   MaxStreams = {streams}
+  SkipAnywhere = {"TRUE" if skipany else "FALSE"}
   FlipKeys = {{{', '.join('"%s"' % k for k in keys)}}}
   InitCfgs = "{init}"
   KnownDevs = {devs_tla()}
@@ -396,6 +400,10 @@ def c12(acc):
     replay_reader(acc, p, "chunks", extra=["--max-all-cuts", 0])
     _, p2 = mc_ops(acc, 2 if q else 3, 1, 2 if q else 1, "four", ["tts", "tte", "eee", "cen"], invs, "MC_Ops-c12b")
     replay_reader(acc, p2, "slice", extra=["--stride", 2 if q else 1])
+    # skip calls issued later than right after the Start event (after text, children, end tags)
+    _, pk = mc_ops(acc, 3, 0, 2, "trim", [], invs, "MC_Ops-c12any", skipany=True)
+    replay_reader(acc, pk, "slice", extra=["--stride", 2 if q else 1])
+    replay_reader(acc, pk, "chunks", extra=["--max-all-cuts", 0, "--stride", 7 if q else 2])
     # a skip call spans many refills of a buffered source: interrupts at any of them are invisible, a hard error is reported by the call
     replay_reader(acc, p, "faults", extra=["--stride", 7 if q else 2])
     trace_reader(acc, 400 if q else 4000, "doc,mut,corpus", "skips", sources="all", max_len=400 if q else 3000)
@@ -463,7 +471,7 @@ CONSTANTS
   N = {n}
   Emit = TRUE
   Mode = "{mode}"
-INVARIANTS Inv_RoundTrip Inv_Safe Inv_NoAmp Inv_Closed Inv_Stable Inv_Custom Inv_Emit
+INVARIANTS Inv_RoundTrip Inv_Safe Inv_NoAmp Inv_Closed Inv_Stable Inv_Custom Inv_Lenient Inv_Emit
 CHECK_DEADLOCK FALSE
 """
         r = tlc("MC_Escape", cfg, name="MC_Escape-" + mode, timeout=3000)
@@ -586,6 +594,10 @@ def c09(acc):
     _, pe = mc_writer(acc, 3 if q else 4, "elem", [0, 2], "MC_Writer-elem-c09")
     summ, viol, _ = harness(["writer-replay", "--file", pe, "--prop", acc.pid, "--out-dir", REPLAY_DIR])
     acc.add_harness(summ, viol, "B:replay ElementWriter operation lists (plain and indenting writer, depth 0-2, sync/async, short writes)")
+    # the asynchronous writer is a separate copy of the event table: same bytes also when indenting (incl. empty text events)
+    _, pi = mc_writer(acc, 3 if q else 4, "indent", [2], "MC_Writer-indent-c09")
+    summ, viol, _ = harness(["writer-replay", "--file", pi, "--prop", acc.pid, "--out-dir", REPLAY_DIR])
+    acc.add_harness(summ, viol, "B:replay event sequences on the indenting writer: sync = async, read-back")
     writer_traces(acc, 400 if q else 5000)
     return acc.finish()
 
@@ -644,7 +656,7 @@ def c17(acc):
     return acc.finish()
 
 
-RT_TYPES = ["F01", "F02", "F03", "F04", "F05", "F07", "F08", "F11", "F15", "F16", "F17", "F18", "F19", "F20", "F22", "F23", "F24", "F25", "F26", "F27", "F28", "F29", "F30", "F31", "F32", "F33"]
+RT_TYPES = ["F01", "F02", "F03", "F04", "F05", "F07", "F08", "F11", "F15", "F16", "F17", "F18", "F19", "F20", "F22", "F23", "F24", "F25", "F26", "F27", "F28", "F29", "F30", "F31", "F32", "F33", "F34"]
 
 
 def mc_serde(acc, types, mode, name, timeout=2500):
@@ -846,7 +858,7 @@ def c20(acc):
                 "document deserialized without limit (must equal the value) and with event_buffer_size = 1..total+1: the value or TooManyEvents, TooManyEvents "
                 "whenever Held > limit, monotone in the limit. non-trivial = interleavings that need buffering")
     acc.trusted = SERDE_TRUST
-    _, p = mc_de(acc, "interleave", 1, ["F22", "F23", "F26", "F29", "F33"], "MC_De-inter")
+    _, p = mc_de(acc, "interleave", 1, ["F22", "F23", "F26", "F29", "F33", "F34"], "MC_De-inter")
     de_replay(acc, p, "interleave", "B:interleavings x buffer limits")
     return acc.finish()
 
